@@ -72,9 +72,10 @@ def run(prop, tier, seed, scratch, replay=None):
     rep = vlib.load_report(report)
     res.add_report(rep)
     wl = None
-    if prop == "C02":
+    if prop in ("C02", "C13"):
         # wallet-level pass: the same reorg semantics seen through wallet.disconnectBlock / syncWithChain
-        # (spec/ChainSync.tla behaviours on a real wallet + scripted backend; C02 owns the transaction status)
+        # (spec/ChainSync.tla behaviours on a real wallet + scripted backend; C02 owns the transaction status
+        # by direct lookup, C13 the listing by range in both directions)
         wdrv = vlib.build_driver(scratch, "replay-wallet")
         wtr = scratch.path("cs.ndjson")
         wrep = scratch.path("cs-report.json")
@@ -89,7 +90,7 @@ def run(prop, tier, seed, scratch, replay=None):
                               emit_every=20, emit_offset=seed)
             vlib.require_tlc_ok(cs, "ChainSync exploration (wallet-level pass)")
             every = 1
-        vlib.run_driver(wdrv, ["-in", wtr, "-out", wrep, "-spec", "chainsync", "-prop", "C02", "-seed", seed,
+        vlib.run_driver(wdrv, ["-in", wtr, "-out", wrep, "-spec", "chainsync", "-prop", prop, "-seed", seed,
                                "-every", every, "-offset", seed % every, "-workers", vlib.NCPU], timeout=3600)
         wl = vlib.load_report(wrep)
         res.add_report(wl)
@@ -134,7 +135,12 @@ def run(prop, tier, seed, scratch, replay=None):
                                               else "GetTransactions (ascending and descending), ListAllTransactions",
                                               "binding_selftest": sp.get("binding_selftest")}
         res.coverage["traces_validated_against_impl"] += sp["traces"]
-    if wl:
+    if wl and sp:
+        res.coverage["wallet_level_pass_reorgs"] = {"spec": "spec/ChainSync.tla", "behaviours_replayed": wl["traces"], "comparisons": wl["checks"],
+                                                     "distinct_nontrivial": wl["distinct_nontrivial"],
+                                                     "observed_through": "GetTransactions (ascending and descending) after every step"}
+        res.coverage["traces_validated_against_impl"] += wl["traces"]
+    elif wl:
         res.coverage["wallet_level_pass"] = {"behaviours_replayed": wl["traces"], "comparisons": wl["checks"],
                                               "distinct_nontrivial": wl["distinct_nontrivial"]}
         res.coverage["traces_validated_against_impl"] += wl["traces"]
